@@ -33,7 +33,7 @@ from vf.regx import world as W
 ID = 'C05'
 LEVEL = 'fault_enumeration'
 RULE = (
-    'Hypothesis-generated histories of 3-8 operations {publish(project, version, dir|zip), train(project, release|latest, '
+    'Hypothesis-generated histories of 4-8 operations {publish(project, version, dir|zip), train(project, release|latest, '
     '1-3 states, trigger|explicit tag), read(latest|explicit), prune(generation directory)} over 2 projects and a pool of '
     '11 PEP 440 versions (pre/post/dev releases, equal spellings, 1.10 vs 1.2) on a posix registry, each publish/train '
     'optionally carrying a crash point (k-th file-system event, j bytes into a write); the same histories without '
@@ -57,10 +57,10 @@ ASSUMPTIONS = [
     'unlisted leftovers of a crashed operation (staged states, half-built generation/release directories) are allowed',
 ]
 FLOORS = {
-    'crash:commit': 0.12,
+    'crash:commit': 0.08,
     'crash:publish': 0.1,
     'retry-after-crash': 0.15,
-    'publish:rejected': 0.1,
+    'publish:rejected': 0.04,
     'train:second+': 0.3,
     'read:explicit': 0.03,
     'gap:train-after-prune': 0.01,
@@ -98,16 +98,21 @@ _state = st.one_of(
 @st.composite
 def history(draw, regkind='posix'):
     crashable = regkind == 'posix'
-    nops = draw(st.integers(3, 8))
+    nops = draw(st.integers(4, 8))
     ops = []
     shadow = {p: [] for p in range(len(PROJECTS))}  # ranks presumably published (ignores crash effects)
+    trains = {p: 0 for p in range(len(PROJECTS))}  # trainings since the last prune
+    lastr = {p: None for p in range(len(PROJECTS))}
     clock = 0
+    follow = None  # a training right after a prune (numbering over the gap)
     for _ in range(nops):
-        p = draw(st.sampled_from([0, 0, 0, 1, 1]))
-        if not shadow[p]:
+        p = draw(st.sampled_from([0, 0, 0, 0, 1]))
+        if follow is not None and draw(st.integers(0, 9)) < 8:
+            p, kind = follow['p'], 'train'
+        elif not shadow[p]:
             kind = 'publish'
         else:
-            menu = ['train'] * 6 + ['publish'] * 3 + ['read'] * 2 + (['prune'] if crashable else [])
+            menu = ['train'] * 8 + ['publish'] * 3 + ['read'] * 2 + (['prune'] * 6 if crashable and trains[p] >= 2 else [])
             kind = draw(st.sampled_from(menu))
         op = {'op': kind, 'p': p}
         if kind == 'publish':
@@ -129,16 +134,20 @@ def history(draw, regkind='posix'):
                 if draw(st.booleans()):
                     tag.update(tts=clock + 1, score=draw(st.sampled_from([0.5, 0.125, -2.0])))
             op.update(
-                r=draw(st.sampled_from([None, None, 0, 1, 2])),
+                r=follow['r'] if follow is not None else draw(st.sampled_from([None, None, 0, 1, 2])),
                 states=draw(st.lists(_state, min_size=1, max_size=3)),
                 tag=tag,
             )
+            trains[p] += 1
+            lastr[p] = op['r']
         elif kind == 'read':
             op.update(r=draw(st.sampled_from([None, None, 0, 1, 2])), g=draw(st.sampled_from([None, None, 0, 1, 2, 3])))
         else:
-            op.update(r=draw(st.sampled_from([None, 0, 1])), g=draw(st.integers(0, 3)))
-        if crashable and kind in ('publish', 'train') and draw(st.integers(0, 9)) < 4:
+            op.update(r=lastr[p], g=draw(st.sampled_from([0, 0, 0, 1, 2, 3])))
+            trains[p] = 0
+        if crashable and kind in ('publish', 'train') and draw(st.integers(0, 9)) >= 6:
             op['crash'] = {'k': draw(st.integers(0, 40)), 'j': draw(st.sampled_from(fault.JMODES))}
+        follow = op if kind == 'prune' else None
         ops.append(op)
     return {'registry': regkind, 'ops': ops}
 
@@ -536,6 +545,7 @@ class History:
         if v is None or not self.ex.crashable or not model[p][v]['gens']:
             self.classes.add('skipped:nothing-to-prune')
             return model
+        self.classes.add('prune')
         gens = gens_of(model, p, v)
         g = gens[op['g'] % len(gens)]
         self.ex.prune(p, v, g)
